@@ -16,7 +16,7 @@ Schedules : /repo carries no hooks.  Inside the worker process JsonHistoryFlushe
             points - the entry of run() (before it takes the condition lock) or the entry of dump() (at
             the front of the queue, lock held, nothing written) - until a release / wait rule fires or
             until the main thread is queued behind it (a file read or an at_exit flush appended to the
-            FIFO queue).  Reads are thereby forced to happen while a flush is in flight, and the schedule
+            FIFO queue; fallback: the main thread sits in one xonsh call for 0.25 s).  Reads are thereby forced to happen while a flush is in flight, and the schedule
             is a deterministic function of the operation list (failures replay exactly).
 Oracle    : a reference list of appended commands with the sound tolerance for the exclusion rules:
             definitely_kept (excluded under no reading) is a subsequence of every observed view, which is
@@ -63,6 +63,7 @@ F1, F2, F3, F4, F5, F6 = "C12-F1", "C12-F2", "C12-F3", "C12-F4", "C12-F5", "C12-
 
 OP_TIMEOUT = 10.0       # seconds a single operation may take (typical cost: 1 ms)
 JOIN_TIMEOUT = 10.0     # seconds a released flusher thread may take to finish
+STALL = 0.25           # a held flusher is let go when the main thread sits in one xonsh call this long
 GATE_MAX = 30.0         # a held flusher proceeds on its own after this long (then: harness error)
 BASE_TS = 1_700_000_000.0
 
@@ -255,6 +256,8 @@ class Driver:
         self.thread_excs = []
         self.gate_expired = False
         self.auto_released = 0
+        self.stall_released = 0
+        self.call_t0 = None
         # model
         self.tick = 0
         self.nid = 0
@@ -337,10 +340,13 @@ class Driver:
         return "[%s]" % ", ".join(type(x).__name__ + (":" + x.field if hasattr(x, "field") else "") for x in list(q))
 
     def _call(self, fn, *a, **kw):
+        self.call_t0 = time.monotonic()
         try:
             return True, fn(*a, **kw)
         except Exception as e:  # noqa: BLE001
             return False, e
+        finally:
+            self.call_t0 = None
 
     def gate_wait(self, fl):
         """Called in the flusher thread at the entry of dump() (the condition lock is held)."""
@@ -359,7 +365,15 @@ class Driver:
                 fl._c12_auto = True
                 self.auto_released += 1
                 return
-            if time.monotonic() - t0 > GATE_MAX:
+            now = time.monotonic()
+            t = self.call_t0
+            if t is not None and now - t > STALL:
+                # fallback: the main thread has been inside one xonsh call for STALL seconds (typical
+                # cost 1 ms), i.e. it waits for this flusher in some way the queue does not show
+                fl._c12_auto = True
+                self.stall_released += 1
+                return
+            if now - t0 > GATE_MAX:
                 self.gate_expired = True
                 return
             time.sleep(0.0003)
@@ -1143,6 +1157,8 @@ def make_machine(backend):
                                if d.nontrivial else None), max_per_label=2)
             stats.hist[backend + "-steps"] += len(d.ops)
             stats.hist[backend + ":auto-released-flushers"] += d.auto_released
+            if d.stall_released:
+                stats.hist[backend + ":stall-released-flushers"] += d.stall_released
             for fid in d.excluded:
                 stats.excluded_known[fid] += 1
 
